@@ -43,6 +43,9 @@ type hostileRun struct {
 	start time.Time
 	err   error
 	inInput bool
+	// noAdmission switches the sender-side admission oracle off (C05 feeds
+	// arbitrary bytes whose effect on the window is not modelled)
+	noAdmission bool
 	// extra oracle, run after every op
 	after func(h *hostileRun, what string) error
 }
@@ -109,7 +112,7 @@ func (h *hostileRun) onOutput(buf []byte, size int) {
 		if int(sg.Wnd) > free {
 			h.fail("segment cmd=%d sn=%d advertises window %d, delivery queue has room for %d", sg.Cmd, sg.Sn, sg.Wnd, free)
 		}
-		if sg.Cmd != wire.CmdPush || h.sm.seen[sg.Sn] {
+		if sg.Cmd != wire.CmdPush || h.sm.seen[sg.Sn] || h.noAdmission {
 			continue
 		}
 		h.sm.seen[sg.Sn] = true
